@@ -46,12 +46,12 @@ Proof. intros H fp H1 H2. dispatch_cases fp. Qed.
 Lemma dispatch_refuted_if_witness_trig :
   get_func_moment mixed_witness = DTrig ->
   exists fp, has_trig fp = true /\ has_exp fp = true /\ get_func_moment fp = DTrig /\
-    forall (R : cring) (Iu : R) (cf : Z -> R) (dcf : nat -> Z -> R),
-      get_trig_moment_num R Iu cf dcf fp = get_trig_moment_num R Iu cf dcf [("Sin", 1%nat)] /\
-      get_trig_moment_den R Iu cf dcf fp = get_trig_moment_den R Iu cf dcf [("Sin", 1%nat)].
+    forall (R : cring) (Iu : R) (mom : nat -> R) (cf : Z -> R) (dcf : nat -> Z -> R),
+      get_trig_moment_num R Iu mom cf dcf fp = get_trig_moment_num R Iu mom cf dcf [("Sin", 1%nat)] /\
+      get_trig_moment_den R Iu mom cf dcf fp = get_trig_moment_den R Iu mom cf dcf [("Sin", 1%nat)].
 Proof.
   intros H. exists mixed_witness. split; [reflexivity|]. split; [reflexivity|]. split; [exact H|].
-  intros R Iu cf dcf. split; reflexivity.
+  intros R Iu mom cf dcf. split; reflexivity.
 Qed.
 
 (* ------------------------------------------------------------------------------------ *)
@@ -77,62 +77,61 @@ Section Trig.
   Qed.
 
   Variable Iu : R.
-
-  (* what the translated double loop computes, for arbitrary cf/dcf *)
-  Lemma trig_num_as_sum (cf : Z -> R) (dcf : nat -> Z -> R) fp :
-    get_trig_moment_num R Iu cf dcf fp
-    = rsum (seq 0 (S (fget "Cos" fp))) (fun k1 => rsum (seq 0 (S (fget "Sin" fp))) (fun k2 =>
-        zr (binom (fget "Cos" fp) k1 * binom (fget "Sin" fp) k2 * (-1) ^ Z.of_nat (fget "Sin" fp - k2))
-        * (if (fget "Id" fp =? 0)%nat
-           then cf (2 * (Z.of_nat k1 + Z.of_nat k2) - Z.of_nat (fget "Cos" fp) - Z.of_nat (fget "Sin" fp))%Z
-           else dcf (fget "Id" fp)
-                    (2 * (Z.of_nat k1 + Z.of_nat k2) - Z.of_nat (fget "Cos" fp) - Z.of_nat (fget "Sin" fp))%Z))).
-  Proof.
-    unfold get_trig_moment_num. rewrite !fget_if. cbv zeta.
-    rewrite !pyrange_0, !Nat.add_1_r.
-    rewrite (fold_left_step _ (fun k1 => rsum (seq 0 (S (fget "Sin" fp))) (fun k2 =>
-        zr (binom (fget "Cos" fp) k1 * binom (fget "Sin" fp) k2 * (-1) ^ Z.of_nat (fget "Sin" fp - k2))
-        * (if (fget "Id" fp =? 0)%nat
-           then cf (2 * (Z.of_nat k1 + Z.of_nat k2) - Z.of_nat (fget "Cos" fp) - Z.of_nat (fget "Sin" fp))%Z
-           else dcf (fget "Id" fp)
-                    (2 * (Z.of_nat k1 + Z.of_nat k2) - Z.of_nat (fget "Cos" fp) - Z.of_nat (fget "Sin" fp))%Z)))).
-    - ring.
-    - intros acc k1. apply fold_left_step. intros acc2 k2. reflexivity.
-  Qed.
-
-  Lemma trig_den_eq (cf : Z -> R) (dcf : nat -> Z -> R) fp :
-    get_trig_moment_den R Iu cf dcf fp
-    = rpow Iu (fget "Id" fp + fget "Sin" fp) * rpow (zr 2) (fget "Cos" fp + fget "Sin" fp).
-  Proof. unfold get_trig_moment_den. rewrite !fget_if. cbv zeta. rewrite zr_pow. reflexivity. Qed.
-
   (* e m stands for exp(i m) *)
   Variable e : Z -> R.
   Hypothesis e_0 : e 0%Z = r1.
   Hypothesis e_add : forall m n, e (m + n)%Z = e m * e n.
 
-  (* PRODUCT-TO-SUM, on the generated definition: with the formal monomial z^m = e m in the place
-     of dist.cf(m) and no identity power, the double sum of get_trig_moment is
-     (z - 1/z)^b (z + 1/z)^c, and its divisor is i^b 2^(b+c):  so the quotient is
-     ((z - 1/z)/(2i))^b ((z + 1/z)/2)^c = sin^b cos^c  written with z = exp(i x). *)
-  Theorem prod_to_sum_gen (b c : nat) (v : Z) :
-    get_trig_moment_num R Iu (fun m => e (m * v)%Z) (fun _ m => e (m * v)%Z) [("Sin", b); ("Cos", c)]
-    = rpow (e v - e (- v)%Z) b * rpow (e v + e (- v)%Z) c
-    /\ get_trig_moment_den R Iu (fun m => e (m * v)%Z) (fun _ m => e (m * v)%Z) [("Sin", b); ("Cos", c)]
-       = rpow Iu b * rpow (zr 2) (c + b).
+  (* dist.get_moment(a) of a law *)
+  Definition mom_of (L : zlaw R) (a : nat) : R := Ez L (fun v => rpow (zr v) a).
+
+  (* derivatives of a characteristic function at frequency 0: phi(0) = 1 and phi^(a)(0) = i^a E[X^a] *)
+  Lemma dtf_mass (L : zlaw R) : Ez L (fun _ => r1) = r1 -> dtf_of e Iu L 0 0%Z = r1.
   Proof.
-    split.
-    - rewrite trig_num_as_sum. cbn [fget String.eqb Ascii.eqb Bool.eqb].
-      rewrite (prod_to_sum_ring R (e v) (e (- v)%Z) b c).
-      apply rsum_ext. intros k1 H1. apply rsum_ext. intros k2 H2.
-      apply in_seq in H1. apply in_seq in H2. cbn [Nat.eqb].
-      rewrite !zr_mul, zr_pow, zr_m1. unfold br.
-      replace (2 * (Z.of_nat k1 + Z.of_nat k2) - Z.of_nat c - Z.of_nat b)%Z
-        with (Z.of_nat (k1 + k2) - Z.of_nat ((b + c) - (k1 + k2)))%Z by lia.
-      rewrite (e_diff R e e_0 e_add). ring.
-    - rewrite trig_den_eq. cbn [fget String.eqb Ascii.eqb Bool.eqb Nat.add]. reflexivity.
+    intros H. rewrite dtf_of_eq. rewrite <- H. unfold Ez. apply rsum_ext. intros pv _.
+    cbn [rpow]. rewrite Z.mul_0_l, e_0. ring.
+  Qed.
+  Lemma dtf_zero_freq (L : zlaw R) a : dtf_of e Iu L a 0%Z = rpow Iu a * mom_of L a.
+  Proof.
+    rewrite dtf_of_eq. unfold mom_of, Ez. rewrite <- rsum_scal. apply rsum_ext. intros pv _.
+    rewrite Z.mul_0_l, e_0, rpow_mul_base. ring.
   Qed.
 
-  (* the same double sum for arbitrary powers in the request dict *)
+  (* what the translated double loop computes for a law L of total mass 1: every term is the
+     a-th formal t-derivative of the law's characteristic function at the term's frequency
+     (whether the code takes it from dist.cf, from diff(dist.cf(t), t, a) or, at frequency 0, from
+     the moment) *)
+  Lemma trig_num_as_sum (L : zlaw R) fp :
+    Ez L (fun _ => r1) = r1 ->
+    get_trig_moment_num R Iu (mom_of L) (tf_of e L) (dtf_of e Iu L) fp
+    = rsum (seq 0 (S (fget "Cos" fp))) (fun k1 => rsum (seq 0 (S (fget "Sin" fp))) (fun k2 =>
+        zr (binom (fget "Cos" fp) k1 * binom (fget "Sin" fp) k2 * (-1) ^ Z.of_nat (fget "Sin" fp - k2))
+        * dtf_of e Iu L (fget "Id" fp)
+            (2 * (Z.of_nat k1 + Z.of_nat k2) - Z.of_nat (fget "Cos" fp) - Z.of_nat (fget "Sin" fp))%Z)).
+  Proof.
+    intros Hmass. unfold get_trig_moment_num. rewrite !fget_if. cbv zeta.
+    rewrite !pyrange_0, !Nat.add_1_r.
+    rewrite (fold_left_step _ (fun k1 => rsum (seq 0 (S (fget "Sin" fp))) (fun k2 =>
+        zr (binom (fget "Cos" fp) k1 * binom (fget "Sin" fp) k2 * (-1) ^ Z.of_nat (fget "Sin" fp - k2))
+        * dtf_of e Iu L (fget "Id" fp)
+            (2 * (Z.of_nat k1 + Z.of_nat k2) - Z.of_nat (fget "Cos" fp) - Z.of_nat (fget "Sin" fp))%Z))).
+    - ring.
+    - intros acc k1. apply fold_left_step. intros acc2 k2. f_equal. f_equal.
+      set (m := (2 * (Z.of_nat k1 + Z.of_nat k2) - Z.of_nat (fget "Cos" fp) - Z.of_nat (fget "Sin" fp))%Z).
+      set (a := fget "Id" fp).
+      destruct (Z.eqb_spec m 0) as [Hm0|Hm0]; destruct (Nat.eqb_spec a 0) as [Ha|Ha]; cbn [andb].
+      + try rewrite Hm0; rewrite Ha; first [reflexivity | symmetry; apply dtf_mass; exact Hmass].
+      + try rewrite Hm0; first [reflexivity | symmetry; apply dtf_zero_freq].
+      + rewrite Ha. reflexivity.
+      + reflexivity.
+  Qed.
+
+  Lemma trig_den_eq (mom : nat -> R) (cf : Z -> R) (dcf : nat -> Z -> R) fp :
+    get_trig_moment_den R Iu mom cf dcf fp
+    = rpow Iu (fget "Id" fp + fget "Sin" fp) * rpow (zr 2) (fget "Cos" fp + fget "Sin" fp).
+  Proof. unfold get_trig_moment_den. rewrite !fget_if. cbv zeta. rewrite zr_pow. reflexivity. Qed.
+
+  (* the double sum of get_trig_moment over the frequencies 2(k1+k2)-c-b, evaluated on z^(m v) *)
   Lemma trig_double_sum (b c : nat) (v : Z) :
     rsum (seq 0 (S c)) (fun k1 => rsum (seq 0 (S b)) (fun k2 =>
       zr (binom c k1 * binom b k2 * (-1) ^ Z.of_nat (b - k2))
@@ -148,6 +147,26 @@ Section Trig.
     rewrite (e_diff R e e_0 e_add). ring.
   Qed.
 
+  (* PRODUCT-TO-SUM, on the generated definition: for the Dirac law at v, whose characteristic
+     function is the formal monomial m |-> z^(m v) = e (m v), and no identity power, the double sum
+     of get_trig_moment is (z^v - z^-v)^b (z^v + z^-v)^c and its divisor is i^b 2^(c+b): the quotient
+     is ((z^v - z^-v)/(2i))^b ((z^v + z^-v)/2)^c = sin^b(v) cos^c(v) written with z = exp(i). *)
+  Definition dirac (v : Z) : zlaw R := [(r1, v)].
+  Theorem prod_to_sum_gen (b c : nat) (v : Z) :
+    get_trig_moment_num R Iu (mom_of (dirac v)) (tf_of e (dirac v)) (dtf_of e Iu (dirac v)) [("Sin", b); ("Cos", c)]
+    = rpow (e v - e (- v)%Z) b * rpow (e v + e (- v)%Z) c
+    /\ get_trig_moment_den R Iu (mom_of (dirac v)) (tf_of e (dirac v)) (dtf_of e Iu (dirac v)) [("Sin", b); ("Cos", c)]
+       = rpow Iu b * rpow (zr 2) (c + b).
+  Proof.
+    split.
+    - rewrite trig_num_as_sum by (unfold Ez, dirac; cbn [rsum fold_right fst snd]; ring).
+      cbn [fget String.eqb Ascii.eqb Bool.eqb].
+      rewrite <- trig_double_sum.
+      apply rsum_ext. intros k1 _. apply rsum_ext. intros k2 _. f_equal.
+      rewrite dtf_of_eq. unfold Ez, dirac. cbn [rsum fold_right fst snd rpow]. ring.
+    - rewrite trig_den_eq. cbn [fget String.eqb Ascii.eqb Bool.eqb Nat.add]. reflexivity.
+  Qed.
+
   (* sin and cos of the integer points, characterised by Euler's formulas *)
   Variable sn cs : Z -> R.
   Hypothesis sn_def : forall v, zr 2 * Iu * sn v = e v - e (- v)%Z.
@@ -158,18 +177,17 @@ Section Trig.
      translated numerator equals the translated divisor times the defining sum
      E[X^a sin^b(X) cos^c(X)] = sum_j p_j v_j^a sin(v_j)^b cos(v_j)^c. *)
   Theorem trig_moment_discrete_exact (L : zlaw R) (fp : fdict) :
-    get_trig_moment_num R Iu (tf_of e L) (dtf_of e Iu L) fp
-    = get_trig_moment_den R Iu (tf_of e L) (dtf_of e Iu L) fp
+    Ez L (fun _ => r1) = r1 ->
+    get_trig_moment_num R Iu (mom_of L) (tf_of e L) (dtf_of e Iu L) fp
+    = get_trig_moment_den R Iu (mom_of L) (tf_of e L) (dtf_of e Iu L) fp
       * Ez L (fun v => rpow (zr v) (fget "Id" fp) * rpow (sn v) (fget "Sin" fp) * rpow (cs v) (fget "Cos" fp)).
   Proof.
-    rewrite trig_num_as_sum, trig_den_eq.
+    intros Hmass. rewrite trig_num_as_sum by exact Hmass. rewrite trig_den_eq.
     set (a := fget "Id" fp). set (b := fget "Sin" fp). set (c := fget "Cos" fp).
-    (* cf / dcf are both the a-th formal derivative *)
     transitivity (rsum (seq 0 (S c)) (fun k1 => rsum (seq 0 (S b)) (fun k2 =>
         zr (binom c k1 * binom b k2 * (-1) ^ Z.of_nat (b - k2))
         * Ez L (fun v => rpow (Iu * zr v) a * e ((2 * (Z.of_nat k1 + Z.of_nat k2) - Z.of_nat c - Z.of_nat b) * v)%Z)))).
-    { apply rsum_ext. intros k1 _. apply rsum_ext. intros k2 _. f_equal.
-      rewrite <- dtf_of_eq. destruct (Nat.eqb_spec a 0) as [E|E]; [rewrite E; reflexivity | reflexivity]. }
+    { apply rsum_ext. intros k1 _. apply rsum_ext. intros k2 _. f_equal. apply dtf_of_eq. }
     (* exchange the law's sum with the double sum *)
     unfold Ez.
     transitivity (rsum L (fun pv => fst pv * rpow (Iu * zr (snd pv)) a *
